@@ -1,0 +1,6 @@
+//go:build !verif
+
+package dataframe
+
+// verifGate is a no-op unless the package is built with the tag "verif".
+func verifGate(phase string, row int) {}
